@@ -1,5 +1,10 @@
 package memberlist
 
+import (
+	"net"
+	"time"
+)
+
 func init() {
 	vRegister("H_C16_PacketRoundTrip", H_C16_PacketRoundTrip)
 }
@@ -26,6 +31,7 @@ func init() {
 	vRegister("H_C16_Hostile", H_C16_Hostile)
 	vRegister("H_C16_Isolation", H_C16_Isolation)
 	vRegister("H_C16_TooLong", H_C16_TooLong)
+	vRegister("H_C16_Outbound", H_C16_Outbound)
 }
 
 // C16 codec, stream side: header + payload survive any fragmentation.
@@ -144,4 +150,63 @@ func H_C16_Isolation() {
 		vAssert(conn.closed >= 1, "c16.iso.str-closed")
 		vCover("c16.iso.str")
 	}
+}
+
+// vPlainTransport implements only Transport (not NodeAwareTransport): newMemberlist has to shim it.
+type vPlainTransport struct{ inner *vTransport }
+
+func (t *vPlainTransport) FinalAdvertiseAddr(ip string, port int) (net.IP, int, error) {
+	return t.inner.FinalAdvertiseAddr(ip, port)
+}
+func (t *vPlainTransport) WriteTo(b []byte, addr string) (time.Time, error) {
+	return t.inner.WriteTo(b, addr)
+}
+func (t *vPlainTransport) PacketCh() <-chan *Packet { return t.inner.PacketCh() }
+func (t *vPlainTransport) DialTimeout(addr string, timeout time.Duration) (net.Conn, error) {
+	return t.inner.DialTimeout(addr, timeout)
+}
+func (t *vPlainTransport) StreamCh() <-chan net.Conn { return t.inner.StreamCh() }
+func (t *vPlainTransport) Shutdown() error           { return t.inner.Shutdown() }
+
+// C16 outbound: a node built by the real constructor with a label puts the label header on every packet and at
+// the start of every stream it opens, whichever kind of transport it was given; without a label nothing is added.
+func H_C16_Outbound() {
+	conf := vBaseConfig()
+	label := string(vBytes(vPick(3)))
+	conf.Label = label
+	conf.Logger = vLogger()
+	rec := &vTransport{packetCh: make(chan *Packet, 1), streamCh: make(chan net.Conn, 1)}
+	if vPick(2) == 0 {
+		conf.Transport = rec
+	} else {
+		conf.Transport = &vPlainTransport{inner: rec}
+	}
+	m, err := newMemberlist(conf)
+	vAssert(err == nil, "c16.out.created")
+	if err != nil {
+		return
+	}
+	defer m.Shutdown() // stops the listener goroutines the constructor started, whatever happens below
+	payload := vBytes(2)
+	to := Address{Addr: "10.0.0.2:7946", Name: vPeerA}
+	vAssert(m.rawSendMsgPacket(to, &Node{PMax: 2}, append([]byte{byte(userMsg)}, payload...)) == nil, "c16.out.packet-sent")
+	vAssert(len(rec.packets) == 1, "c16.out.one-packet")
+	if len(rec.packets) == 1 {
+		rest, got, rerr := RemoveLabelHeaderFromPacket(rec.packets[0])
+		vAssert(rerr == nil && vEqStr(got, label), "c16.out.packet-labelled")
+		vAssert(len(rest) == 3 && rest[0] == byte(userMsg) && vEqBytes(rest[1:], payload), "c16.out.packet-payload")
+	}
+	conn := &vConn{}
+	rec.conn = conn
+	vAssert(m.sendUserMsg(to, payload) == nil, "c16.out.stream-sent")
+	lo := labelOverhead(label)
+	vAssert(len(conn.out) > lo, "c16.out.stream-written")
+	if len(conn.out) > lo {
+		if label == "" {
+			vAssert(conn.out[0] == byte(userMsg), "c16.out.stream-unlabelled")
+		} else {
+			vAssert(vEqBytes(conn.out[:lo], makeLabelHeader(label, nil)) && conn.out[lo] == byte(userMsg), "c16.out.stream-labelled")
+		}
+	}
+	vCover("c16.out")
 }
